@@ -154,6 +154,17 @@ def generate(rng, tier, seed):
     cases = [gen_fb_case(rng, f"c08_{seed}_{k}") for k in range(n)]
     cases += [gen_collfb(rng, f"c08_{seed}_coll{k}") for k in range(n // 3)]
     cases += [gen_fb_try(rng, f"c08_{seed}_try{k}") for k in range(n // 5)]
+    # feedback loops inside the children of a keyed map (the owner must visit a child in the delivery cycle although only a
+    # SIBLING key has an outer event then): decided by the C10 instance oracle (each instance == the function run alone)
+    from .c10 import gen_case10
+    got = k = 0
+    while got < n // 8 and k < 40 * n:
+        c = gen_case10(rng, f"c08_{seed}_mapfb{k}", k % 11)
+        k += 1
+        if any(st.op == "fb" for g, sts in c.graphs.items() if g.startswith("fn") or g.startswith("sub") for st in sts):
+            c.meta["delegate"] = "c10"
+            cases.append(c)
+            got += 1
     return cases
 
 
@@ -220,6 +231,11 @@ def compare_all(case, run, mr):
 
 
 def check(case, tr):
+    if case.meta.get("delegate") == "c10":
+        from . import c10
+        r = c10.check(case, tr)
+        r.counters = {"map_children_with_feedback_cases": 1, "map_children_with_feedback_runs_compared": r.counters.get("instance_runs_compared", 0)}
+        return r
     if case.meta.get("kind") == "collfb":
         return check_collfb(case, tr)
     res = Result(signature=case.text().split("\n", 1)[1])
